@@ -409,12 +409,12 @@ class ValueTransformation(DetectionItemTransformation):
                         # Unlike FieldMappingTransformation (which may add wildcards to values
                         # making round-tripping incorrect), ValueTransformation operates on the
                         # values directly and the new values serve as the serializable original.
-                        # This is only correct if the modifiers of the item leave the new values
-                        # unchanged when they are applied again after loading the serialized rule
-                        # (e.g. contains on a value that still has its wildcards). Else (base64,
-                        # wide, replaced values without the wildcards of the modifier etc.) the
-                        # serialized item would get another meaning and serialization is disabled.
-                        if self._modifiers_keep_values(r):
+                        # This is only correct if the new values written with the modifiers of the
+                        # item are loaded as the same values again (e.g. contains on a value that
+                        # still has its wildcards). Else (base64, wide, values replaced by another
+                        # type or without the wildcards of the modifier etc.) the serialized item
+                        # would get another meaning and serialization is disabled.
+                        if self._plain_form_keeps_values(r):
                             r.original_value = r.value.copy()
                         else:
                             r.disable_conversion_to_plain()
@@ -422,14 +422,19 @@ class ValueTransformation(DetectionItemTransformation):
                     self.processing_item_applied(r)
 
     @staticmethod
-    def _modifiers_keep_values(detection_item: SigmaDetectionItem) -> bool:
-        """Check if applying the modifiers of the detection item to its current values yields the same values."""
-        if len(detection_item.modifiers) == 0:
-            return True
+    def _plain_form_keeps_values(detection_item: SigmaDetectionItem) -> bool:
+        """
+        Check if the current values of the detection item written as plain data type with its
+        modifiers are loaded as the same values again.
+        """
         try:
-            reloaded = SigmaDetectionItem(
-                detection_item.field, detection_item.modifiers, detection_item.value.copy()
-            )
+            probe = dataclasses.replace(detection_item, auto_modifiers=False)
+            plain = probe.to_plain()
+            if isinstance(plain, dict):
+                ((key, plain_value),) = plain.items()
+                reloaded = SigmaDetectionItem.from_mapping(key, plain_value)
+            else:
+                reloaded = SigmaDetectionItem.from_value(plain)
             return bool(reloaded.value == detection_item.value)
         except Exception:
             return False
